@@ -310,18 +310,22 @@ class Model:
     def candidates(self, n, etype, event_kind="plain", src=None):
         """Declared candidates on node n for this event, in declaration order.
 
-        Only exact keys (descriptor precedence is out of scope, see DESIGN C20).
+        Keys are matched by the reference `match_descriptors` below (identical key, partial descriptors by decreasing
+        prefix length, bare wildcard; engine-raised events by their exact handler only).
         Returns (list, blocked) where blocked is True when a forbidden
         transition consumes the event at this node.
         """
         out = []
         blocked = False
         if etype != "":
-            for t in n.on.get(etype, []):
-                if t.forbidden:
-                    blocked = True
+            for key in match_descriptors(n.on, etype):
+                for t in n.on[key]:
+                    if t.forbidden:
+                        blocked = True
+                        break
+                    out.append(t)
+                if blocked:
                     break
-                out.append(t)
         if not blocked:
             if etype == "" or not etype.startswith(("done.", "error.", "after.")):
                 if etype == "":
@@ -365,6 +369,26 @@ class Model:
                     break
                 cur = cur.parent
         return noms
+
+
+def match_descriptors(on_map, etype):
+    """Reference event-descriptor matching: which keys of a state's `on` map apply to this event type, in trial order."""
+    if not on_map or not etype:
+        return []
+    out = [etype] if etype in on_map else []
+    if etype.startswith(("done.", "error.", "after.", "xstate.")):
+        return out
+    parts = []
+    for k in on_map:
+        if k != "*" and k.endswith(".*"):
+            pre = k[:-2]
+            if etype == pre or etype.startswith(pre + "."):
+                parts.append(k)
+    parts.sort(key=lambda k: -len(k))
+    out.extend(parts)
+    if "*" in on_map:
+        out.append("*")
+    return out
 
 
 # -- reference guard evaluation (C06) --------------------------------------
